@@ -50,10 +50,6 @@ def ff(h):
     return float.fromhex(h)
 
 
-def coqf(h):
-    return "(%s)%%float" % h
-
-
 def optf(x):
     return [0] if x is None else [1, fbits(x)]
 
@@ -207,42 +203,46 @@ def rc_impl(case):
     return out
 
 
+def coqf(h):
+    return "(%s)" % h if h.startswith("-") else h
+
+
 def coq_op(op):
     k = op[0]
     if k == "send":
         _, sp, pn, inf, ae, cr, tm, nbytes = op
-        return "OSend %d %d %s %s %s %s %d" % (sp, pn, coqb(inf), coqb(ae), coqb(cr), coqf(tm), nbytes)
+        return "fSend %d %d %s %s %s %s %d" % (sp, pn, coqb(inf), coqb(ae), coqb(cr), coqf(tm), nbytes)
     if k == "ack":
         _, sp, ranges, delay, now = op
         rs = "; ".join("(%d, %d)" % (a, b) for a, b in ranges)
-        return "OAck %d [%s] %s %s" % (sp, rs, coqf(delay), coqf(now))
+        return "fAck %d [%s] %s %s" % (sp, rs, coqf(delay), coqf(now))
     if k == "timeout":
-        return "OTimeout %s" % coqf(op[1])
+        return "fTimeout %s" % coqf(op[1])
     if k == "discard":
-        return "ODiscard %d" % op[1]
+        return "fDiscard %d" % op[1]
     if k == "resched":
-        return "OResched %s" % coqf(op[1])
+        return "fResched %s" % coqf(op[1])
     if k == "pcav":
-        return "OSetPcav %s" % coqb(op[1])
+        return "fPcav %s" % coqb(op[1])
     if k == "mad":
-        return "OSetMad %s" % coqf(op[1])
+        return "fMad %s" % coqf(op[1])
     if k == "nextsend":
-        return "ONextSend %s" % coqf(op[1])
+        return "fNextSend %s" % coqf(op[1])
     if k == "aftersend":
-        return "OAfterSend %s" % coqf(op[1])
+        return "fAfterSend %s" % coqf(op[1])
     raise ValueError(k)
 
 
 def rc_encode(case):
-    """The model input is a Gallina expression (evaluated by vm_compute), returned as a 1-element list."""
+    """The model input is a Gallina expression (evaluated by vm_compute), returned as [expr, cache key]."""
     ops = "[" + "; ".join(coq_op(o) for o in case["ops"]) + "]"
     head = "%d %s %s" % (case["mss"], coqf(case["irtt"]), coqb(case["pcav"]))
-    if case["cc"] == "reno":
-        return ["run_reno %s %s" % (head, ops), _key(case)]
     key = _key(case)
+    if case["cc"] == "reno":
+        return ["run_reno %s %s" % (head, ops), key]
     if key not in _ORACLE_CACHE:
         rc_impl(case)
-    orc = "[" + "; ".join("(%d, %s, %s)" % (t, coqf(fh(a)), coqf(fh(r))) for t, a, r in _ORACLE_CACHE[key]) + "]"
+    orc = "[" + "; ".join("fOr %d %s %s" % (t, coqf(fh(a)), coqf(fh(r))) for t, a, r in _ORACLE_CACHE[key]) + "]"
     return ["run_cubic %s %s %s" % (head, orc, ops), key]
 
 
@@ -535,12 +535,12 @@ def gen_long_ca(rng, n):
     return out
 
 
-def exhaustive(npk, ccs=("reno", "cubic")):
+def exhaustive(npk, ccs=("reno", "cubic"), quick=False):
     """Small scope: npk packets sent in one space (flag combinations by position), then every ack subset
     (as a range set) with every placement of a timer firing / discard / second ack."""
     flagsets = [(1, 1, 0), (1, 0, 0), (0, 0, 0), (1, 1, 1)]
     for cc in ccs:
-        for fl in itertools.product(flagsets[:2] if npk > 3 else flagsets[:3], repeat=npk):
+        for fl in itertools.product(flagsets[:2] if (npk > 3 or quick) else flagsets[:3], repeat=npk):
             for mask in range(1, 1 << npk):
                 ranges = [[i, i + 1] for i in range(npk) if mask >> i & 1]
                 for tail in ("none", "timer", "discard", "ack_all", "timer_ack", "never"):
@@ -617,25 +617,37 @@ def _tally(s, cases):
 
 
 def run(ctx):
+    import time
     s = suite(ctx)
     s.run(corr.load_corpus("C08", s.name), "corpus")
     rng = ctx.rng
-    batches = [gen_cases(rng, ctx.n(1200, 30000)), gen_long_ca(rng, ctx.n(150, 3000))]
-    ex = list(exhaustive(3)) if not ctx.thorough else list(exhaustive(3)) + list(exhaustive(4))
-    batches.append(ex)
-    for b in batches:
-        # vm_compute batches: keep case files moderate
-        for i in range(0, len(b), 4000):
-            s.run(b[i:i + 4000])
-    _tally(s, batches[0][:400] + batches[1][:100])
+    # generation is cheap and always complete (the PRNG stream does not depend on timing)
+    ex = list(exhaustive(3, quick=True)) if not ctx.thorough else list(exhaustive(3)) + list(exhaustive(4))
+    batches = [("random", gen_cases(rng, ctx.n(400, 30000))),
+               ("exhaustive", ex),
+               ("long", gen_long_ca(rng, ctx.n(40, 3000)))]
+    # One vm_compute pass over everything (every coqc process pays the library loading once, which takes
+    # 5-20 s on a loaded machine); thorough runs are cut into chunks.  Safety net for the quick tier: chunks
+    # that would start after the deadline are skipped and counted.
+    allc = [c for _, b in batches for c in b]
+    chunk = 600 if not ctx.thorough else 6000
+    deadline = None if ctx.thorough else ctx.t0 + 100
+    skipped = 0
+    for i in range(0, len(allc), chunk):
+        if deadline is not None and i > 0 and time.time() > deadline:
+            skipped += len(allc) - i
+            break
+        s.run(allc[i:i + chunk])
+    _tally(s, batches[0][1][:300] + batches[2][1][:60])
     return corr.merge_coverage(
         [s],
         "op histories on the real QuicPacketRecovery (3 spaces, reno and cubic alternating): sends with all flag "
         "combinations, ack range sets with gaps / never-sent / already-acked / repeated numbers, loss timer and PTO "
         "firings at, after and before get_loss_detection_time, discards with packets in flight, reschedule_data, "
-        "pacer calls; plus small-scope exhaustive (<=3 quick / <=4 thorough packets x all ack subsets x tails). "
+        "pacer calls; plus small-scope exhaustive (3 packets quick / <=4 thorough x all ack subsets x tails). "
         "distinct = distinct model expression; non-trivial = at least one send followed by an ack/timeout/discard",
-        {"exhaustive_small_scope": True, "exhaustive_cases": len(ex)})
+        {"exhaustive_small_scope": skipped == 0, "exhaustive_cases": len(ex),
+         "cases_skipped_by_time_guard": skipped})
 
 
 def replay(ctx, rep):
